@@ -268,6 +268,13 @@ func c19Decode(c *Ctx, i int, lit string, r *gen.Rng) {
 				c.Violate(i, "ast.Node.StrictInt64", "integer literal converted wrongly", map[string]interface{}{"lit": lit, "got": g, "err": errStr(err)})
 			}
 		}
+		if _, ok := isInt64Lit(lit); !ok && plainInt.MatchString(lit) {
+			// an integer literal that does not fit int64: the strict accessor must reject it, not wrap it
+			if g, err := nd.StrictInt64(); err == nil {
+				c.Violate(i, "ast.Node.StrictInt64", "out-of-range integer literal accepted", map[string]interface{}{"lit": trunc(lit, 200), "got": g})
+			}
+			c.Count("ast_strict_int64_out_of_range_literals", 1)
+		}
 		// Interface() on a parsed tree
 		n2, _ := sonic.GetFromString(`{"a":` + lit + `}`)
 		if x, err := n2.Interface(); err == nil {
